@@ -105,9 +105,8 @@ fn stream_decode(t: &mut Transcript, quick: bool) {
         match Element::try_from(&b[..]) {
             Ok(e) => {
                 out.push(1);
-                for c in el_coords(&e).iter() {
-                    out.extend_from_slice(c);
-                }
+                // observables only: which representative (coset member, projective scaling) a
+                // build's decoder returns is not something the property speaks about
                 out.extend_from_slice(&obs_of(&e));
             }
             Err(decaf377::EncodingError::InvalidEncoding) => out.push(2),
@@ -303,6 +302,20 @@ fn field_arith<F: FS>(t: &mut Transcript, quick: bool) {
     });
     let work: Vec<(usize, usize)> = (0..uforms.len() * nm).map(|i| (i / nm, i % nm)).collect();
     t.emit_par(&work, |&(fi, a)| Rec { op: format!("{}:montgomery-pattern:{}", F::NAME, uforms[fi].name), input: to_le_n(&mp[a], n), output: (uforms[fi].f)(mf[a]).map(|x| x.to_le()).unwrap_or(vec![0xDD]) });
+    // comparison / borrow boundary classes and operands with long divstep trajectories (the
+    // inversion loop of the 32-bit backend runs a fixed number of steps): every unary form
+    {
+        let lt = refmodel::divstep::long_trajectory_family(&p, if quick { 256 } else { 1024 }, 16);
+        let fld = refmodel::fld::Fld::new(p.clone());
+        let rr = BigUint::from(1u8) << (8 * n);
+        let rinv = fld.inv(&(&rr % &p)).unwrap();
+        let mut vals: Vec<BigUint> = lt.iter().flat_map(|(a, _)| vec![a.clone(), fld.mul(a, &rr), fld.mul(a, &rinv)]).collect();
+        vals.extend(cmp_family(&p, n).into_iter().filter(|x| *x < p));
+        vals.extend(neg_family(&p, n));
+        let vf: Vec<F> = vals.iter().map(F::of).collect();
+        let work: Vec<(usize, usize)> = (0..uforms.len() * vals.len()).map(|i| (i / vals.len(), i % vals.len())).collect();
+        t.emit_par(&work, |&(fi, a)| Rec { op: format!("{}:boundary/long-trajectory:{}", F::NAME, uforms[fi].name), input: to_le_n(&vals[a], n), output: (uforms[fi].f)(vf[a]).map(|x| x.to_le()).unwrap_or(vec![0xDD]) });
+    }
     // folds and From<uN>
     let lv: Vec<F> = [0usize, 1, 2, ns - 1, ns / 2, ns / 3].iter().map(|&i| sf[i]).collect();
     let mut lists: Vec<Vec<usize>> = vec![vec![]];
